@@ -4,6 +4,7 @@ import (
 	"fmt"
 	"go/token"
 	"go/types"
+	"reflect"
 	"regexp"
 	"strings"
 
@@ -156,7 +157,29 @@ func init() {
 						}
 						return (op == token.LSS && k <= N) || (op == token.LEQ && k <= N-1) || (op == token.EQL && k >= 0 && k < N)
 					}
-					c.check(guardedBy(ia.Block(), below), fmt.Sprintf("%s: index#%d into %s stays inside", shortName(fn), n, g.Name()), p.instrPos(ia), fmt.Sprintf("under a comparison that keeps the position below %d", N), fmt.Sprintf("%s[…] is read with a position that no comparison keeps below the table's length %d on this way: the value that equals the bound reads one past the end and the render panics (index out of range)", g.Name(), N))
+					inside := guardedBy(ia.Block(), below)
+					if ph, isPhi := idx.(*ssa.Phi); isPhi && !inside {
+						// a rotated counting loop (`for i := range len(t)`): the position is a φ whose every incoming value was
+						// compared on the edge it comes in by — 0 on entry, i+1 under `i+1 < len(t)` on the back edge
+						inside = true
+						for k, e := range ph.Edges {
+							if kc, isK := constInt(e); isK && kc >= 0 && kc < N {
+								continue
+							}
+							pred := ph.Block().Preds[k]
+							okEdge := false
+							if ifi, isIf := pred.Instrs[len(pred.Instrs)-1].(*ssa.If); isIf {
+								saved := idx
+								idx = e
+								okEdge = below(ifi.Cond, pred.Succs[0] == ph.Block())
+								idx = saved
+							}
+							if !okEdge {
+								inside = false
+							}
+						}
+					}
+					c.check(inside, fmt.Sprintf("%s: index#%d into %s stays inside", shortName(fn), n, g.Name()), p.instrPos(ia), fmt.Sprintf("under a comparison that keeps the position below %d", N), fmt.Sprintf("%s[…] is read with a position that no comparison keeps below the table's length %d on this way: the value that equals the bound reads one past the end and the render panics (index out of range)", g.Name(), N))
 				})
 			}
 			if n == 0 {
@@ -443,14 +466,106 @@ func init() {
 					continue // the rest after the root: another list
 				}
 				n++
-				onNo := guardedBy(site.Block(), func(cnd ssa.Value, want bool) bool {
-					cl := isCallNamed(cnd, "vuego.isTemplateRoot")
-					return cl != nil && !want
+				// every way to the call crosses an edge on which `the first node is a <template>` failed: the helper said
+				// no, or one of its conjuncts did (no node, not an element, another tag)
+				onNo := everyPathCrosses(site.Block(), func(cnd ssa.Value, want bool) bool {
+					if cl := isCallNamed(cnd, "vuego.isTemplateRoot"); cl != nil {
+						return !want
+					}
+					op, x, y, ok := relationOnEdge(cnd, want)
+					if !ok {
+						return false
+					}
+					for _, pair := range [][2]ssa.Value{{x, y}, {y, x}} {
+						if s, isS := constString(pair[1]); isS && s == "template" && op == token.NEQ {
+							return true
+						}
+						if k, isK := constInt(pair[1]); isK && k == 3 && isNamed(pair[1].Type(), "golang.org/x/net/html", "NodeType") && op == token.NEQ {
+							return true
+						}
+					}
+					if cl, isCall := x.(*ssa.Call); isCall {
+						if b, isB := cl.Call.Value.(*ssa.Builtin); isB && b.Name() == "len" {
+							if k, isK := constInt(y); isK && ((op == token.LEQ && k == 0) || (op == token.EQL && k == 0) || (op == token.LSS && k == 1)) {
+								return true
+							}
+						}
+					}
+					return false
 				})
-				c.check(onNo, fmt.Sprintf("evalInclude: the whole component#%d is evaluated only when evalTemplate did not", n), p.instrPos(site), "under !isTemplateRoot", "the component's whole node list is evaluated on a way on which its <template> root has already been evaluated by evalTemplate: the root is evaluated twice and one result thrown away — what the discarded pass recorded (v-once elements as emitted) makes the kept pass leave them out")
+				c.check(onNo, fmt.Sprintf("evalInclude: the whole component#%d is evaluated only when evalTemplate did not", n), p.instrPos(site), "every way to it crosses `not a <template> root`", "the component's whole node list is evaluated on a way on which its <template> root has already been evaluated by evalTemplate: the root is evaluated twice and one result thrown away — what the discarded pass recorded (v-once elements as emitted) makes the kept pass leave them out")
 			}
 			if n == 0 {
 				undecided("evalInclude no longer evaluates the component's node list as a whole")
+			}
+		},
+	})
+}
+
+func init() {
+	register(&Rule{
+		ID: "C08.R19", Props: []string{"C08", "C09"}, Min: 1,
+		Doc: "the lookup fallback is the struct behind the root scope, never a map: wherever Stack.rootData is set from data that was passed in, the function (or the helper whose result it stores) tests the data's kind against reflect.Map and has a way on which nil is stored. The entries of a map are copied into the root scope; the caller's map kept as the fallback is read live by Lookup (ResolveValue resolves map keys too) and not by EnvMap: a key added after Fill is printed by {{ }} and :attr and returned by Get while v-if does not see it — the read positions disagree, and the template sees data that was never given to it",
+		Run: func(p *Prog, c *Ctx) {
+			n := 0
+			for _, fn := range p.liveFuncs() {
+				eachInstr(fn, func(in ssa.Instruction) {
+					st, ok := in.(*ssa.Store)
+					if !ok {
+						return
+					}
+					fa, ok := st.Addr.(*ssa.FieldAddr)
+					if !ok {
+						return
+					}
+					fv := fieldVar(fa)
+					if fv == nil || !fieldIs(fv, "rootData") || !strings.HasSuffix(typeShort(fa.X.Type()), "Stack") {
+						return
+					}
+					os := p.origins(st.Val, OriginOpts{Depth: 2})
+					passed, hasNil := false, false
+					for _, o := range os {
+						if isNilConst(o) {
+							hasNil = true
+							continue
+						}
+						if ld, ok := o.(*ssa.UnOp); ok && ld.Op == token.MUL {
+							if f2 := fieldVar(ld.X); f2 != nil && fieldIs(f2, "rootData") {
+								continue // another stack's fallback, handed on
+							}
+						}
+						passed = true
+					}
+					if !passed {
+						return
+					}
+					n++
+					// the kind test: in the storing function or in a module function it calls directly
+					scan := []*ssa.Function{fn}
+					for _, site := range callsIn(fn) {
+						if callee := site.Common().StaticCallee(); callee != nil && inModule(callee) && len(callee.Blocks) > 0 {
+							scan = append(scan, callee)
+						}
+					}
+					kindTest := false
+					for _, f := range scan {
+						eachInstr(f, func(x ssa.Instruction) {
+							b, ok := x.(*ssa.BinOp)
+							if !ok || (b.Op != token.EQL && b.Op != token.NEQ) {
+								return
+							}
+							for _, side := range []ssa.Value{b.X, b.Y} {
+								if k, isK := constInt(side); isK && k == int64(reflect.Map) && isNamed(side.Type(), "reflect", "Kind") {
+									kindTest = true
+								}
+							}
+						})
+					}
+					c.check(hasNil && kindTest, fmt.Sprintf("%s: rootData#%d is not set to a map", shortName(fn), n), p.instrPos(st), "the data's kind is compared with reflect.Map and nil is stored on one way", "Stack.rootData is set to the data as it was passed in, a map included: Lookup falls back to the caller's live map, EnvMap does not — a key the caller adds after Fill is seen by {{ }}, :attr and Get and not by v-if")
+				})
+			}
+			if n == 0 {
+				undecided("no function sets Stack.rootData from passed data")
 			}
 		},
 	})
